@@ -966,6 +966,20 @@ func (w *World) monitors(n *node, kind string, in *pb.Message, pre, post *raft.V
 		w.violate("C07", nil, "node %d changed term/vote on a lower-term %s (term %d < %d)", n.id, in.GetType(), in.GetTerm(), pre.Term)
 	}
 
+	if pre.PendingSnapIndex != 0 && post.PendingSnapIndex != pre.PendingSnapIndex {
+		ok := post.PendingSnapIndex > pre.PendingSnapIndex && in != nil && in.GetType() == pb.MsgSnap
+		if post.PendingSnapIndex == 0 {
+			switch {
+			case kind == "advance" && m.advancing != nil && m.advancing.Snapshot.GetMetadata().GetIndex() == pre.PendingSnapIndex:
+				ok = true
+			case in != nil && in.GetType() == pb.MsgStorageAppendResp && in.GetSnapshot().GetMetadata().GetIndex() == pre.PendingSnapIndex:
+				ok = true
+			}
+		}
+		if !ok {
+			w.violate("C09", []string{"C18", "C08"}, "node %d: the snapshot it accepted at index %d is no longer pending after %s (pending now: %d) although its persistence was not acknowledged", n.id, pre.PendingSnapIndex, kind, post.PendingSnapIndex)
+		}
+	}
 	w.monCommit(n, kind, in, pre, post)
 	w.monElection(n, kind, in, pre, post, created)
 	w.monMatch(n, kind, in, pre, post)
